@@ -60,6 +60,7 @@ struct OpInfo
         CTOR,
         CTOR_BOOL,
         GET,
+        INSERT,
         CLOAD,
         CSTORE,
         CLOAD_SPLIT,
@@ -111,6 +112,8 @@ static OpInfo parse_op(const std::string& op, TypeId t)
         o.kind = OpInfo::CTOR_BOOL;
     else if (op == "get")
         o.kind = OpInfo::GET;
+    else if (op == "insert")
+        o.kind = OpInfo::INSERT;
     else if (op == "cload_split_u")
         o.kind = OpInfo::CLOAD_SPLIT;
     else if (op == "cstore_split_u")
@@ -230,11 +233,12 @@ struct MemCase
     std::vector<int64_t> idx; // gather/scatter
     int64_t imm = 0;
 };
+static std::string g_viol_prop = "C04"; // the property the running check decides (C04, C06 via load_as/store_as, C16 via complex forms)
 static Violation mkviol(const MemCase& c, const Target& tg, int lane, const std::string& exp, const std::string& got, const std::string& why)
 {
     Violation v;
     v.kind = "mem";
-    v.prop = "C04";
+    v.prop = g_viol_prop;
     v.op = c.op;
     v.type = kTypeNames[c.type];
     v.target = tg.name;
@@ -244,7 +248,7 @@ static Violation mkviol(const MemCase& c, const Target& tg, int lane, const std:
     std::string ix;
     for (auto i : c.idx)
         ix += std::to_string(i) + ",";
-    v.in_hex = { std::to_string(c.seed), std::to_string(c.payload), ix.empty() ? "-" : std::to_string(c.imm) + ":" + ix };
+    v.in_hex = { std::to_string(c.seed), std::to_string(c.payload), (ix.empty() && c.imm == 0) ? "-" : std::to_string(c.imm) + ":" + ix };
     v.expected = exp;
     v.got = got;
     v.why = why + " [placement " + c.place + ", offset " + std::to_string(c.offset) + "]";
@@ -543,6 +547,42 @@ static bool exec_case(Context& cx, const MemCase& c, const Target& tg, const xsv
         }
         break;
     }
+    case OpInfo::INSERT:
+    {
+        // insert<i>(x, v): lane i holds v (bit pattern intact), every other lane keeps its content.  v has its top bit set in
+        // half of the cases so that a widening of the inserted value into a neighbouring lane shows.
+        for (int i = 0; i < n; ++i)
+        {
+            uint64_t v = (mix64(c.seed * 31 + i) << 8) | (uint64_t)(i + 1);
+            memcpy(img + (size_t)i * rb, &v, rb);
+        }
+        uint64_t val = mix64(c.seed ^ 0x1235) | 1;
+        if (c.payload & 1)
+            val |= 0x8080808080808080ull;
+        else
+            val &= 0x7f7f7f7f7f7f7f7full;
+        if (c.type == F32 || c.type == F64)
+            val = c.type == F32 ? (val & 0xffffffffu) : val; // any bit pattern, NaN payloads included
+        unsigned char vb[8];
+        memcpy(vb, &val, 8);
+        a.in[0] = img;
+        a.in[1] = vb;
+        a.out[0] = out;
+        ok = run();
+        for (int i = 0; ok && i < n; ++i)
+        {
+            cx.st.lane_checks++;
+            const unsigned char* want = i == (int)c.imm ? vb : img + (size_t)i * rb;
+            if (memcmp(out + (size_t)i * rb, want, rb))
+            {
+                ok = false;
+                lane = i;
+                why = i == (int)c.imm ? "insert<" + std::to_string(c.imm) + "> did not place the value (bit pattern) in lane " + std::to_string(c.imm)
+                                      : "insert<" + std::to_string(c.imm) + "> modified lane " + std::to_string(i);
+            }
+        }
+        break;
+    }
     case OpInfo::CTOR_BOOL:
     {
         for (int i = 0; i < n; ++i)
@@ -675,6 +715,7 @@ int main(int argc, char** argv)
     install_crash_handlers();
     setup_arena();
     const std::string prop = cx.opt.prop.empty() ? "C04" : cx.opt.prop;
+    g_viol_prop = prop;
     auto targets = load_targets(cx.opt, prop == "C06" ? "memas" : "mem");
 
     if (!cx.opt.replay.empty())
@@ -850,19 +891,21 @@ int main(int argc, char** argv)
                     md, params);
                 continue;
             }
-            if (oi.kind == OpInfo::GET)
+            if (oi.kind == OpInfo::GET || oi.kind == OpInfo::INSERT)
             {
-                for (int i = 0; i < n; ++i)
-                {
-                    MemCase c;
-                    c.op = op;
-                    c.type = t;
-                    c.imm = i;
-                    c.seed = s0 + i;
-                    c.place = "every_index";
-                    note_case(cx, c, true);
-                    exec_case(cx, c, tg, e);
-                }
+                for (int rep = 0; rep < (oi.kind == OpInfo::INSERT ? 4 : 1); ++rep)
+                    for (int i = 0; i < n; ++i)
+                    {
+                        MemCase c;
+                        c.op = op;
+                        c.type = t;
+                        c.imm = i;
+                        c.payload = rep;
+                        c.seed = s0 + i + (uint64_t)rep * 1000003u;
+                        c.place = "every_index";
+                        note_case(cx, c, true);
+                        exec_case(cx, c, tg, e);
+                    }
                 continue;
             }
             if (oi.kind == OpInfo::BROADCAST || oi.kind == OpInfo::CTOR || oi.kind == OpInfo::CTOR_BOOL)
